@@ -289,38 +289,48 @@ def datetime_layout(ctx, chk):
 
 
 def returns_call_result(b, tr, t):
-    """_0 is the destination of call t, or a plain move/copy of it (through single-definition locals)."""
+    """What the function returns is what call t returned: `_0` is the call's destination, a move of it, or - along every
+    path that returns an Ok built by hand - `Ok((r.0, r.1))` with r the call's (unwrapped) result.  Error returns are the
+    call's own error (`?`).  Path-wise (pathsym), so the spelling does not matter."""
+    import pathsym as ps
     d = t["dest"]
-    if d["p"]:
-        return False
-    if d["l"] == 0:
+    if not d["p"] and d["l"] == 0:
         return True
-    ok = False
-    for i in sorted(b.reachable(0)):
-        for st in b.blocks[i]["stmts"]:
-            if st["s"] == "assign" and st["p"]["l"] == 0:
-                if st["p"]["p"] or st["rv"]["r"] != "use":
-                    return False
-                v = tr.value(st["rv"]["o"])
-                src_l = v.place.l if v.kind == "place" and not v.place.p else None
-                if src_l is None and op_place(st["rv"]["o"]) is not None and not op_place(st["rv"]["o"])["p"]:
-                    src_l = op_place(st["rv"]["o"])["l"]
-                # follow single-definition copies back to the call's destination
-                seen = 0
-                while src_l is not None and src_l != d["l"] and seen < 6:
-                    seen += 1
-                    sd = tr.single_def(src_l)
-                    if sd is None or sd[2] != "assign" or sd[3]["rv"]["r"] != "use":
-                        break
-                    p2 = op_place(sd[3]["rv"]["o"])
-                    src_l = p2["l"] if p2 is not None and not p2["p"] else None
-                if src_l != d["l"]:
-                    return False
-                ok = True
-        tt = b.blocks[i]["term"]
-        if tt["t"] == "call" and tt is not t and tt["dest"]["l"] == 0:
+    cbb = next((bb for bb, t_ in b.calls() if t_ is t), None)
+    if cbb is None:
+        return False
+    pe = ps.PathEval(b, {})
+    rets = [i for i in sorted(b.reachable(0)) if b.blocks[i]["term"]["t"] == "return"]
+    n = 0
+    for r in rets:
+        for path in ps.simple_paths(b, 0, r):
+            if cbb not in path:
+                continue                  # refused before the framing call (nothing decoded)
+            n += 1
+            env, _ = pe.run(path)
+            e = ps.norm(env.get(0, ("pre", 0)))
+            the_call = None
+            for x in ps.walk(e):
+                if x[0] == "call" and x[1] == callee(t):
+                    the_call = x
+            if the_call is None:
+                return False
+            if e == the_call or (e[0] == "call" and e[1].endswith("FromResidual::from_residual")):
+                continue
+            if e[0] == "agg" and str(e[1]).endswith("Result::Ok") and len(e[2]) == 1:
+                tup = ps.strip(e[2][0])
+                if tup[0] == "agg" and tup[1] == "tuple" and len(tup[2]) == 2:
+                    ok = True
+                    for k, comp in enumerate(tup[2]):
+                        root, names = ps.field_chain(comp)
+                        if not (root == the_call and names[-1:] == [k] and all(isinstance(x, str) and x.startswith("@") for x in names[:-1])):
+                            ok = False
+                    if ok:
+                        continue
+            if ps.core(e) == the_call:
+                continue
             return False
-    return ok
+    return n > 0
 
 
 def tag_is_class_instr(b, tr, operand):
